@@ -34,7 +34,7 @@ EmptyF == [x \in {} |-> 0]
 Init0 == [
   tr       |-> "none",
   cfg      |-> [refresh |-> "auto", pop |-> FALSE, q |-> 0, notifier |-> FALSE, width |-> 0, delay |-> FALSE,
-                outfault |-> 0, ctx |-> FALSE, autotoo |-> FALSE, narrow |-> FALSE],
+                outfault |-> 0, ctx |-> FALSE, autotoo |-> FALSE, narrow |-> FALSE, uwg |-> FALSE],
   family   |-> "",
   bars     |-> EmptyF,   \* name -> what the client asked for and what Add returned
   created  |-> <<>>,     \* bars in creation order (the default priority)
@@ -81,6 +81,9 @@ Init0 == [
   hung     |-> FALSE,
   detached |-> {},       \* bars whose push back into the container travelled outside the queue (n > q)
   detachedF |-> {},      \* ... since the frame before the previous one
+  curLB    |-> EmptyF,   \* bar -> what the positive increments that have returned add up to
+  spoiled  |-> {},       \* bars on which something other than a positive increment has been invoked (or any bar once a stop or fault happened)
+  mustComplete |-> {},   \* bars that are certainly completed
   curUB    |-> EmptyF,   \* bar -> upper bound of its counter: everything the increments and SetCurrent calls issued so far could add up to
   renderStarted |-> TRUE
 ]
@@ -253,8 +256,15 @@ OrderRules(s, e) ==
   LET F == s.frames
       LastOf(b) == MaxOf({k \in DOMAIN F : b \in NameSet(F[k].groups)})
       \* a bar popped out is drawn one last time, above the running bars
-      MaybePopping(k, b) == b \in DOMAIN s.bars /\ Poppable(s, b) /\ LastOf(b) = k
-      Popping(k, b) == MaybePopping(k, b) /\ (k < Len(F) \/ FinalRendered(s))
+      \* (a successor takes the bar's place instead - but only one that was registered when the frame before was
+      \* flushed: certainly so if its Add had returned before that cycle began, possibly if its Add had been invoked
+      \* before the pop frame was written)
+      CertainSucc(k, b) == k > 1 /\ \E x \in DOMAIN s.bars : s.bars[x].after = b /\ s.bars[x].ok /\ s.bars[x].ret # 0
+                                                               /\ s.bars[x].ret < F[k - 1].cyc
+      PossibleSucc(k, b) == \E x \in DOMAIN s.bars : s.bars[x].after = b /\ s.bars[x].inv < F[k].seq
+      PopCfg(b) == b \in DOMAIN s.bars /\ s.cfg.pop /\ ~s.bars[b].nopop
+      MaybePopping(k, b) == PopCfg(b) /\ ~CertainSucc(k, b) /\ LastOf(b) = k
+      Popping(k, b) == PopCfg(b) /\ ~PossibleSucc(k, b) /\ LastOf(b) = k /\ (k < Len(F) \/ FinalRendered(s))
       \* a priority change that returned after the bar's previous frame and before its pop frame
       \* (a call takes effect somewhere between its invocation and its return)
       PrioRace(k, b) == k > 1 /\ \E c \in s.prioCalls : c[1] = b /\ c[2] < F[k].seq /\ c[3] > F[k - 1].seq
@@ -271,7 +281,17 @@ OrderRules(s, e) ==
                  \E i \in 1..(Len(F[k].groups) - 1) :
                       LET x == F[k].groups[i].b  y == F[k].groups[i + 1].b IN
                       ~Popping(k, x) /\ Popping(k, y) /\ PrioRace(k, y) = race}
-  IN (IF Badk(FALSE) # {} THEN <<B("C06", "order", e, ToString(Badk(FALSE)))>> ELSE <<>>)
+      \* bars popped out in the same frame appear in the order in which the container finished them: the pop
+      \* priorities are handed out while the frame before is flushed, and that frame is collected bottom row first
+      PosIn(k, b) == CHOOSE i \in DOMAIN F[k].groups : F[k].groups[i].b = b
+      BadPP == {k \in DOMAIN F : k > 1 /\
+                 \E i, j \in DOMAIN F[k].groups :
+                      LET x == F[k].groups[i].b  y == F[k].groups[j].b IN
+                      /\ i < j /\ Popping(k, x) /\ Popping(k, y) /\ ~PrioRace(k, x) /\ ~PrioRace(k, y)
+                      /\ x \in NameSet(F[k - 1].groups) /\ y \in NameSet(F[k - 1].groups)
+                      /\ PosIn(k - 1, x) < PosIn(k - 1, y)}
+  IN (IF BadPP # {} THEN <<B("C18,C06", "popped-out-of-order", e, ToString(BadPP))>> ELSE <<>>)
+     \o (IF Badk(FALSE) # {} THEN <<B("C06", "order", e, ToString(Badk(FALSE)))>> ELSE <<>>)
      \o (IF Badk(TRUE) # {} THEN <<B("C06,C17", "order/successor-position", e, ToString(Badk(TRUE)))>> ELSE <<>>)
      \o (IF BadP(FALSE) # {} THEN <<B("C18", "popped-not-on-top", e, ToString(BadP(FALSE)))>> ELSE <<>>)
      \o (IF BadP(TRUE) # {} THEN <<B("C18", "popped-not-on-top/priority-changed-before-pop", e, ToString(BadP(TRUE)))>> ELSE <<>>)
@@ -369,8 +389,13 @@ FinalRules(s, e) ==
 GetRules(s, e) ==
   \* C11: never both; once a terminal state was reported it stays
   (IF e.completed /\ e.aborted THEN <<B("C11", "completed-and-aborted", e, e.b)>> ELSE <<>>)
-  \o (IF e.b \in s.compSeen /\ (~e.completed \/ e.aborted) THEN <<B("C11,C09", "completed-unstable", e, e.b)>> ELSE <<>>)
+  \o (IF e.b \in s.compShown /\ (~e.completed \/ e.aborted) THEN <<B("C11,C09", "completed-unstable", e, e.b)>> ELSE <<>>)
   \o (IF e.b \in s.abrtSeen /\ (~e.aborted \/ e.completed) THEN <<B("C11", "aborted-unstable", e, e.b)>> ELSE <<>>)
+  \* C02: ID() returns the id the bar was given (ids are labels and may be shared by several bars)
+  \o (IF e.b \in DOMAIN s.bars /\ s.bars[e.b].hasid /\ e.id # s.bars[e.b].id THEN <<B("C02", "wrong-id", e, e.b)>> ELSE <<>>)
+  \* C11/C09: a bar whose increments reached its total - every one of them handed to the bar before anything could
+  \* abort or cancel it - is completed, and stays so whatever happens to its later frames
+  \o (IF e.b \in s.mustComplete /\ (~e.completed \/ e.aborted) THEN <<B("C11,C09", "completed-bar-not-completed", e, e.b)>> ELSE <<>>)
   \* C02: after the container is done getters keep returning the final values
   \o (IF e.b \in DOMAIN s.final /\ (s.final[e.b].cur # e.cur \/ s.final[e.b].completed # e.completed
                                      \/ s.final[e.b].aborted # e.aborted)
@@ -393,7 +418,7 @@ Step(s, e) ==
          [Init0 EXCEPT !.tr = e.tr, !.cfg = e.cfg, !.family = e.family, !.renderStarted = ~e.cfg.delay]
     [] e.ev = "inv" /\ e.op = "add" ->
          [s EXCEPT !.bars = @ @@ (e.b :> [total |-> e.total, rm |-> e.rm, nopop |-> e.nopop, after |-> e.after,
-                                          hasprio |-> e.hasprio, prio |-> e.prio, listens |-> e.listens, ewmas |-> e.ewmas, wraps |-> e.wraps,
+                                          hasprio |-> e.hasprio, prio |-> e.prio, hasid |-> e.hasid, id |-> e.id, listens |-> e.listens, ewmas |-> e.ewmas, wraps |-> e.wraps,
                                           npre |-> e.npre, trim |-> e.trim, nsync |-> e.psync + e.async, ext |-> e.ext,
                                           inv |-> e.seq, ret |-> 0, ok |-> FALSE])]
     [] e.ev = "ret" /\ e.op = "add" ->
@@ -411,6 +436,16 @@ Step(s, e) ==
                               ELSE IF e.b \in DOMAIN @ THEN [@ EXCEPT ![e.b] = @ \cup {e.flag}] ELSE @ @@ (e.b :> {e.flag}),
                    !.abortsU = IF ~s.stopReq THEN @
                                ELSE IF e.b \in DOMAIN @ THEN [@ EXCEPT ![e.b] = @ \cup {e.flag}] ELSE @ @@ (e.b :> {e.flag})]
+    [] e.ev = "ret" /\ e.op \in {"incr", "ewma"} /\ e.n > 0 /\ e.b \in DOMAIN s.bars ->
+         LET lb == (IF e.b \in DOMAIN s.curLB THEN s.curLB[e.b] ELSE 0) + e.n
+             sure == /\ e.b \notin s.spoiled /\ ~s.stopReq /\ ~s.closing /\ ~s.fault /\ s.doneAt = 0
+                     /\ s.bars[e.b].total > 0 /\ lb >= s.bars[e.b].total
+         IN [s EXCEPT !.curLB = (e.b :> lb) @@ @, !.mustComplete = IF sure THEN @ \cup {e.b} ELSE @]
+    [] e.ev = "inv" /\ e.op \in {"abort", "settotal", "trigger"} -> [s EXCEPT !.spoiled = @ \cup {e.b}]
+    [] e.ev = "inv" /\ e.op = "setcur" ->
+         [s EXCEPT !.spoiled = @ \cup {e.b},
+                   !.curUB = [b \in DOMAIN @ \cup {e.b} |-> (IF b \in DOMAIN @ THEN @[b] ELSE 0) + (IF b = e.b /\ e.n > 0 THEN e.n ELSE 0)]]
+    [] e.ev = "inv" /\ e.op = "incr" /\ e.n <= 0 -> [s EXCEPT !.spoiled = @ \cup {e.b}]
     [] e.ev = "inv" /\ e.op \in {"incr", "setcur", "ewma"} /\ e.n > 0 ->
          [s EXCEPT !.curUB = [b \in DOMAIN @ \cup {e.b} |-> (IF b \in DOMAIN @ THEN @[b] ELSE 0) + (IF b = e.b THEN e.n ELSE 0)]]
     [] e.ev = "inv" /\ e.op \in {"cancel", "shutdown"} -> [s EXCEPT !.stopReq = TRUE]
@@ -537,7 +572,7 @@ NarrowRules == {"hang", "hang/detached-push", "hang/orphaned-successor", "hang/r
 DelayBlind == {"missing", "missing/detached-push", "never-shown", "never-shown/detached-push", "last-frame-missing",
                "last-frame-missing/detached-push", "notifier-list", "notifier-list/detached-push", "text-lost",
                "text-bytes-altered", "queued-never-shown", "successor-not-shown", "last-row-not-final",
-               "popped-not-on-top", "order", "order/successor-position"}
+               "popped-not-on-top", "popped-out-of-order", "order", "order/successor-position"}
 Applicable(s, q) == IF s.cfg.narrow THEN SelectSeq(q, LAMBDA b : b.r \in NarrowRules)
                     ELSE IF s.cfg.delay THEN SelectSeq(q, LAMBDA b : b.r \notin DelayBlind)
                     ELSE q
